@@ -51,13 +51,12 @@ Definition nested (k : key) : bool := Nat.ltb 1 (List.length k).
 Definition has_node (f : string) (t : td) : bool :=
   existsb (fun kv => String.eqb (hdk (fst kv)) f && nested (fst kv)) t.
 
-(* base.py:update(src, keys_to_update=ktu): a top-level entry is taken when some selected key starts with its name;
-   below a nested node the pruned keys filter exactly -- also when the destination does not have the node yet (it then
-   starts from an empty node; fix of D143).  Only when the node's own name is selected and the destination lacks it is
-   the node set as a whole. *)
+(* base.py:update(src, keys_to_update=ktu): the filter looks at the FIRST component of a key only; below an existing
+   nested node the pruned keys filter exactly; a nested node the destination does not have yet is set as a whole
+   (D143: kept, the test-suite pins it). *)
 Definition upd_cond (dst : td) (ktu : list key) (k : key) : bool :=
   existsb (fun k' => String.eqb (hdk k') (hdk k)) ktu
-  && (negb (nested k) || memk k ktu || (memk [hdk k] ktu && negb (has_node (hdk k) dst))).
+  && (negb (nested k) || negb (has_node (hdk k) dst) || memk k ktu).
 
 Definition upd_ktu (dst src : td) (ktu : list key) : td :=
   fold_left (fun acc k => match get k src with
